@@ -18,6 +18,11 @@ Streams:
                   `.eval()`, against the model's `BFunctor.call` (`bfeval`), exact over Z[i];
 * `bubble-layers-model` / `bubble-hypotheses`   `bflayers` (= `BFunctor.ref`, the equality of
                   `functor_eval_eq_layers_bubbles`) and `bfgood` (its hypotheses) on every case;
+* `history-eval`  histories with MUTABLE box data (thistlib.py): first uses, rounds of in-place updates, then
+                  the same diagram object / rebuilt / new diagrams from the same box objects / explicit
+                  functors / boxes alone, against the model asked with the CURRENT data and the oracle on it;
+                  tensor diagrams with bubbles, rigid diagrams under one Functor object, circuits of custom
+                  gates, rotations with ndarray phases (float, oracle only).
 * float stream    the same generator with real float arrays and relu / sigmoid / tanh / ...:
                   outside the model, oracle only (independent numpy-kron layer composite,
                   functions re-implemented with `math`), tolerance `tbubblelib.FLOAT_RTOL`.
@@ -34,6 +39,7 @@ from common import Report, lean_obligations, err_class  # noqa: E402
 from core import tok_expr  # noqa: E402
 import tensorlib as tl  # noqa: E402
 import tbubblelib as bl  # noqa: E402
+import thistlib as th  # noqa: E402
 from tensorlib import eff, size, exact_eq  # noqa: E402
 
 PROP = "C09"
@@ -582,6 +588,322 @@ def run_bubbles(rep, bcases, answers):
     rep.extra["bubble_layers_model_agreements"] = agree
 
 
+# ------------------------------------------------------------------ histories with mutable box data
+
+def make_histories(seed, quick):
+    rng = random.Random((seed << 8) ^ 0x415707)
+    n_t, n_r, n_c, n_rot = (48, 14, 18, 6) if quick else (400, 120, 120, 50)
+    hists, rots = [], []
+    for k in range(n_t + n_r + n_c):
+        subseed = rng.getrandbits(64)
+        sub = random.Random(subseed)
+        if k < n_t:
+            hists.append(th.tensor_history(sub, subseed, quick))
+        elif k < n_t + n_r:
+            hists.append(th.rigid_history(sub, subseed))
+        else:
+            hists.append(th.circuit_history(sub, subseed))
+    for _ in range(n_rot):
+        subseed = rng.getrandbits(64)
+        rots.append((subseed, th.rotation_history(random.Random(subseed))))
+    return hists, rots
+
+
+def history_lines(hists):
+    """The driver requests of all histories, flat, and where each answer goes."""
+    lines, where = [], []
+    for i, h in enumerate(hists):
+        for t, s in enumerate(h.steps):
+            for key in ("line", "term_line"):
+                if s.get(key):
+                    lines.append(s[key])
+                    where.append((i, t, key))
+    return lines, where
+
+
+class HistRun:
+    """Replays one planned history on the real code."""
+
+    def __init__(self, rep, h):
+        self.rep, self.h, self.case, self.desc = rep, h, h.case, h.describe()
+
+    def guard(self, name, step, fn):
+        """A call on the real code: an unexpected exception is a failure with the history as input."""
+        try:
+            return fn()
+        except (th.HarnessBug, tl.Inexact):
+            raise
+        except Exception as exc:
+            self.rep.fail("c09:history:%s:raises" % name, dict(self.desc, step=step),
+                          "%s at step %d raised %r" % (name, step, exc))
+            return None
+
+    def check(self, name, step, thunk, view, ref=None, model=None, line=None):
+        """Evaluate on the real code; compare with the layer-by-layer composite of the CURRENT data
+        (independent numpy) and, where a model answer is given, with the model exactly."""
+        rep = self.rep
+        rep.count("history:check:%s:%s" % (self.h.kind, name))
+        value = self.guard(name, step, thunk)
+        if value is None:
+            return None
+        _, dom, cod, _, _ = view.e
+        if ref is None:
+            ref = np.asarray(view.ref_layers(), dtype=complex)
+        sig = "history:%s:%s" % (self.h.kind, name)
+        Oracle(rep, view, dict(self.desc, step=step, check=name)).same(
+            sig, value, view.fdims(dom), view.fdims(cod), ref)
+        if model is not None:
+            real = tl.real_line(lambda: value, tl.canon_tensor)
+            rep.count("history:model_compared")
+            if real != model:
+                rep.disagree("history-eval", dict(self.desc, step=step, check=name, line=line[:3000]),
+                             real[:3000], model[:3000])
+        return value
+
+    def box_checks(self, step, ukeys):
+        """The boxes alone: `.array` is the array the box holds now; so are .eval() and the dagger."""
+        case, rep = self.case, self.rep
+        specs = dict(case.ars_by_key())
+        for ukey in ukeys:
+            obj, spec = case._objs.get(ukey), specs[ukey]
+            if obj is None:
+                continue
+            ub = [b for b, _ in case.ars if tl.box_key(b) == ukey][0]
+            fd, fc = case.fdims(ub["dom"]), case.fdims(ub["cod"])
+            want = np.asarray(spec, dtype=complex).reshape(size(fd), size(fc))
+            arr = self.guard("box_array", step, lambda: np.asarray(obj.array))
+            rep.count("history:check:%s:box_array" % self.h.kind)
+            if arr is not None and (tuple(arr.shape) != (tuple(fd + fc) or (1,)) or
+                                    not exact_eq(arr.reshape(want.shape), want)):
+                rep.fail("c09:history:%s:box_array" % self.h.kind,
+                         dict(self.desc, step=step, box=ub["name"]),
+                         "box.array is %r, the box holds %r" % (arr.tolist(), want.tolist()))
+            if ukey != ukeys[(step + self.h.subseed) % len(ukeys)]:
+                continue                        # the evaluations for one of the updated boxes
+            bview = case.view(("mk", ub["dom"], ub["cod"], [ub], [0]))
+            self.check("box_eval", step, lambda: obj.eval(), bview, ref=want)
+            dview = case.view(("mk", ub["cod"], ub["dom"], [th.dag_box(ub)], [0]))
+            self.check("box_dagger_eval", step, lambda: obj.dagger().eval(), dview, ref=want.conj().T)
+
+    def first_uses(self, d0):
+        """What happens to the boxes before the first update (any of these may read `.array`)."""
+        case, rep = self.case, self.rep
+        objs = [case._objs[tl.box_key(b)] for b in case.gens() if tl.box_key(b) in case._objs]
+        for use in self.h.first_uses:
+            rep.count("history:first_use:%s:%s" % (self.h.kind, use))
+
+            def run():
+                for o in objs:
+                    if (use == "hash" or use == "eq_hash") and type(o).__hash__ is not None:
+                        hash(o)                 # (ClassicalGate defines == without hash)
+                    if use == "eq" or use == "eq_hash":
+                        assert o == o and o == o.dagger().dagger()
+                    if use == "dict_key":
+                        assert {o: 1}[o] == 1
+                    if use == "in_list":
+                        assert o in [o.dagger().dagger()]
+                    if use == "array":
+                        o.array
+                    if use == "eval_box":
+                        o.eval()
+                    if use == "repr":
+                        repr(o), str(o)
+                    if use == "make_dagger":
+                        o.dagger()
+                    if use == "eval_dagger_box":
+                        o.dagger().eval()
+                if use == "functor":
+                    th.explicit_functor(case, d0, "callable", "dict_list")(d0)
+                return True
+            if use not in ("eval", "none"):
+                self.guard("first_use:" + use, 0, run)
+
+    def run(self, ans):
+        h, case, rep = self.h, self.case, self.rep
+        kind = h.kind
+        steps = h.steps
+        case.install(steps[0]["snapshot"])
+        case._objs.clear()
+        case.cont.clear()
+        d0 = self.guard("build", 0, case.real_diagram)
+        if d0 is None:
+            return
+        rep.count("history:cases:" + kind)
+        rep.count("history:rounds:%s:%d" % (kind, len(steps) - 1))
+        rep.count("history:dagger_objects:%s:%s" % (kind, case.dag_mode))
+        for st in sorted(set(case.style.values())):
+            rep.count("history:container:%s:%s" % (kind, st))
+        self.first_uses(d0)
+        prev = None
+        for t, s in enumerate(steps):
+            if t:
+                case.mutate(s["muts"], s["snapshot"])
+                for _, op, _, _ in s["muts"]:
+                    rep.count("history:update:%s:%s" % (kind, op))
+            a = ans.get((t, "line"))
+            ref = np.asarray(case.ref_layers(), dtype=complex)
+            changed = prev is not None and not exact_eq(prev, ref)
+            prev = ref
+            rep.case("history|%s|%d|%d" % (kind, h.subseed, t), t > 0 and changed and len(case.e[3]) >= 2)
+            if t:
+                rep.count("history:result_changed_by_update:%s:%s" % (kind, changed))
+            if t == 0:
+                if "eval" in h.first_uses:
+                    self.check("first_eval", 0, lambda: d0.eval(), case, ref, a, s["line"])
+                    if s.get("term") and h.subseed % 2:
+                        v = th.term_view(case, s["term"])
+                        self.check("new_diagram_before_update", 0,
+                                   lambda: th.term_real(case, s["term"]).eval(), v, None,
+                                   ans.get((0, "term_line")), s["term_line"])
+                continue
+            # (a) the same diagram object, evaluated again
+            self.check("same_diagram_object", t, lambda: d0.eval(), case, ref, a, s["line"])
+            # (b) new diagrams from the same box objects
+            case.keep_bubbles = s["keep_bubbles"]
+            d1 = self.guard("rebuild", t, case.real_diagram)
+            if d1 is not None:
+                rep.count("history:rebuilt:%s:bubbles_%s" % (kind, "kept" if s["keep_bubbles"] else "rewrapped"))
+                self.check("rebuilt_from_same_boxes", t, lambda: d1.eval(), case, ref, a, s["line"])
+            dT, v = None, None
+            if s.get("term"):
+                v = th.term_view(case, s["term"])
+                dT = self.guard("new_diagram:build", t, lambda: th.term_real(case, s["term"]))
+                for o in sorted(th.term_ops(s["term"])):
+                    rep.count("history:new_diagram_has:%s:%s" % (kind, o))
+                if dT is not None:
+                    self.check("new_diagram_from_same_boxes", t, lambda: dT.eval(), v, None,
+                               ans.get((t, "term_line")), s["term_line"])
+            # (c) explicit functors, dict and callable
+            if kind == "tensor":
+                for ob_style, ar_style, target in s["functors"]:
+                    d, vw = (dT, v) if target == "term" and dT is not None else (d0, case)
+                    rep.count("history:functor:ob=%s:ar=%s" % (ob_style, ar_style))
+                    self.check("explicit_functor:" + ar_style.split("_")[0], t,
+                               lambda: th.explicit_functor(case, d, ob_style, ar_style)(d), vw,
+                               ref if vw is case else None)
+            # (d) the updated boxes alone
+            self.box_checks(t, [k for k, _, _, _ in s["muts"]])
+
+    def run_rigid(self, ans):
+        h, case, rep = self.h, self.case, self.rep
+        steps = h.steps
+        case.install(steps[0]["snapshot"])
+        case.cont.clear()
+        F = self.guard("build_functor", 0, case.build_functor)
+        d = self.guard("build", 0, case.real_diagram)
+        if F is None or d is None:
+            return
+        rep.count("history:cases:rigid")
+        rep.count("history:rounds:rigid:%d" % (len(steps) - 1))
+        rep.count("history:rigid:ob=%s:ar=%s" % (case.ob_style, case.ar_style))
+        for st in sorted(set(case.style.values())):
+            rep.count("history:container:rigid:%s" % st)
+        rep.count("history:first_use:rigid:" + h.first_uses[0])
+        prev = None
+        for t, s in enumerate(steps):
+            if t:
+                case.mutate(s["muts"], s["snapshot"])
+                for _, op, _, _ in s["muts"]:
+                    rep.count("history:update:rigid:%s" % op)
+            ref = np.asarray(case.ref_layers(), dtype=complex)
+            changed = prev is not None and not exact_eq(prev, ref)
+            prev = ref
+            rep.case("history|rigid|%d|%d" % (h.subseed, t), t > 0 and changed and len(case.e[3]) >= 2)
+            if t == 0:
+                if h.first_uses[0] == "call":
+                    self.check("first_call", 0, lambda: F(d), case, ref, ans.get((0, "line")), s["line"])
+                continue
+            rep.count("history:result_changed_by_update:rigid:%s" % changed)
+            self.check("same_functor_same_diagram", t, lambda: F(d), case, ref, ans.get((t, "line")),
+                       s["line"])
+            _, dom, cod, _, _ = case.e
+            dag = case.view_plain(("mk", cod, dom, [], []))
+            self.check("same_functor_dagger", t, lambda: F(d.dagger()), dag, ref.conj().T)
+            if ref.size <= 400:
+                two = case.view_plain(("mk", list(dom) + list(dom), list(cod) + list(cod), [], []))
+                self.check("same_functor_tensor", t, lambda: F(d @ d), two, np.kron(ref, ref))
+            self.check("new_functor_same_containers", t, lambda: case.build_functor()(d), case, ref,
+                       ans.get((t, "line")), s["line"])
+
+
+def run_rotation_history(rep, subseed, plan):
+    """Rotations whose phase is a 0-d ndarray updated in place: float, oracle only."""
+    import qgen
+    from discopy.quantum import gates, Id
+    n, layers, phases0, rounds = plan
+    desc = dict(family="history:rotation", subseed=subseed, wires=n,
+                layers=[(l, kind, "phase[%d]" % p, r) for l, kind, p, r in layers],
+                phases=list(phases0), updates=rounds)
+    orc = Oracle(rep, None, desc)
+    rep.count("history:cases:rotation")
+    cur = list(phases0)
+    try:
+        cont = [np.array(v) for v in phases0]
+        objs = [getattr(gates, kind)(cont[p]) for _, kind, p, _ in layers]
+        c = Id(n)
+        for (l, _, _, r), g in zip(layers, objs):
+            c = c >> Id(l) @ g @ Id(r)
+    except Exception as exc:
+        rep.fail("c09:history:rotation:raises", desc, "building raised %r" % (exc,))
+        return
+
+    def want():
+        return qgen.product_io(n, [(l, ("R", kind, None, cur[p]), r) for l, kind, p, r in layers],
+                               qgen.std_io)
+    for t in range(len(rounds) + 1):
+        if t:
+            for p, op, v in rounds[t - 1]:
+                rep.count("history:update:rotation:" + op)
+                if op == "iadd":
+                    cont[p] += v
+                    cur[p] = cur[p] + v
+                elif op == "imul":
+                    cont[p] *= 2
+                    cur[p] = cur[p] * 2
+                elif op == "fill":
+                    cont[p].fill(v)
+                    cur[p] = v
+                elif op == "assign":
+                    cont[p][...] = v
+                    cur[p] = v
+                else:
+                    np.copyto(cont[p], v)
+                    cur[p] = v
+            if [float(x) for x in cont] != [float(x) for x in cur]:
+                raise th.HarnessBug("rotation phases %r, planned %r" % (cont, cur))
+        rep.case("history|rotation|%d|%d" % (subseed, t), t > 0)
+        m = want()
+        try:
+            orc.desc = dict(desc, step=t)
+            orc.close("history:rotation:" + ("same_circuit_object" if t else "first_eval"),
+                      c.eval(), [2] * n, [2] * n, m)
+            if t:
+                rev = Id(n)
+                for (l, _, _, r), g in reversed(list(zip(layers, objs))):
+                    rev = rev >> Id(l) @ g.dagger() @ Id(r)
+                orc.close("history:rotation:new_circuit_from_same_gates", (c >> rev).eval(),
+                          [2] * n, [2] * n, m @ m.conj().T)
+        except Exception as exc:
+            rep.fail("c09:history:rotation:raises", dict(desc, step=t), "evaluation raised %r" % (exc,))
+
+
+def run_histories(rep, hists, rots, answers, where):
+    per = [dict() for _ in hists]
+    for (i, t, key), a in zip(where, answers):
+        per[i][(t, key)] = a
+    for h, ans in zip(hists, per):
+        r = HistRun(rep, h)
+        try:
+            if h.kind == "rigid":
+                r.run_rigid(ans)
+            else:
+                r.run(ans)
+        except tl.Inexact:
+            rep.count("history:skipped:inexact")
+    for subseed, plan in rots:
+        run_rotation_history(rep, subseed, plan)
+
+
 # ------------------------------------------------------------------ run
 
 def run(tier, seed, replay=None):
@@ -603,7 +925,16 @@ def run(tier, seed, replay=None):
                 "half over Z[i] (compared with the model) and a float half (relu, sigmoid, tanh, "
                 "..., oracle only); a few diagrams with two same-name 32x32 boxes whose numpy "
                 "arrays differ only where repr prints '...'. non-trivial there = at least one "
-                "bubble with a non-empty inside and >= 2 box occurrences")
+                "bubble with a non-empty inside and >= 2 box occurrences. "
+                "PLUS histories with mutable box data (thistlib): tensor.Diagrams with bubbles / rigid diagrams "
+                "under one Functor object / pure Circuits of custom QuantumGate, ClassicalGate boxes / rotations "
+                "with 0-d ndarray phases, whose box data are mutable containers (ndarray flat / shaped / float / "
+                "int, list, nested list); random first uses (hash, ==, dict key, .array, eval, functor, none); 1-3 "
+                "rounds of in-place updates (element / row / slice assignment, +=, *=, -=, [:]=, fill, flat, "
+                "copyto, put, reverse, swap, inner list replaced); after each round the same diagram object, "
+                "rebuilt and new diagrams (dagger, @, >>, bubbles) from the same box objects, explicit dict / "
+                "callable functors and the boxes alone, against the model and the oracle on the CURRENT data; "
+                "non-trivial there = a round after which the reference changed, >= 2 boxes")
     rep.partial = [
         "sums, invariance under the RIGID normal form (snake removal) and Diagram.eval "
         "== identity-on-arrays functor are checked by the oracle on real code only (sums "
@@ -617,6 +948,10 @@ def run(tier, seed, replay=None):
         "diagrams under dict/callable functors, bubbles around sums and sums of diagrams with "
         "bubbles are outside the executable model: oracle only (independent numpy-kron "
         "layer-by-layer composite, functions re-implemented on plain Python numbers)",
+        "histories with mutable data: the model has no notion of object identity or time - it is a pure "
+        "function of the data and is asked with the snapshot of each round (same-object, rebuilt and new-diagram "
+        "evaluations; rigid: same functor / new functor on the same diagram); explicit functors, boxes alone, "
+        "rigid dagger / tensor, rotation phases (float) are oracle only",
         "cups/caps/spiders are interpreted by their defining tensors (definitional): "
         "the functor calls Tensor.cups/caps and Spider arrays; the oracle checks "
         "them against independently written matrices",
@@ -631,6 +966,10 @@ def run(tier, seed, replay=None):
         "numpy (library) and math (oracle) by ~1 ulp; discontinuous functions (not, step, floor) "
         "are only used in cases without transcendental functions, where every value is an exact "
         "dyadic rational on both sides",
+        "histories: `Box.data` may hold a mutable object (cat.py:540) and evaluation reads it when it runs; the "
+        "tensor of a box at an evaluation is the array its data holds at that moment. QuantumGate / ClassicalGate "
+        "copy their array at construction and at .dagger() by design: there only the gate's own stored array is "
+        "updated and daggers are made after the update",
         "the fuel of BFunctor.call is the number of bubbles of the request + 1, above any "
         "nesting depth, so Err.fuel is never produced",
         "numpy itself is trusted; the model's numpy primitives are only cross-validated "
@@ -655,8 +994,11 @@ def run(tier, seed, replay=None):
         case, info = make_case(sub, k, quick)
         cases.append((case, info, subseed, sub))
     bcases = make_bubble_cases(seed, quick)
+    hists, rots = make_histories(seed, quick)
+    hlines, hwhere = history_lines(hists)
     drv = tl.Asker()
     try:
+        hans = drv.ask_many(hlines)
         bidx = [i for i, (c, _, _) in enumerate(bcases) if c.exact]
         bans = [None] * len(bcases)
         for cmd in ("bfeval", "bflayers", "bfgood"):
@@ -747,4 +1089,6 @@ def run(tier, seed, replay=None):
     rep.extra["theorem_hypotheses_met"] = hyp
     rep.extra["layers_model_agreements"] = layers_agree
     run_bubbles(rep, bcases, bans)
+    run_histories(rep, hists, rots, hans, hwhere)
+    rep.extra["history_model_comparisons"] = rep.dist.get("history:model_compared", 0)
     return rep.finish()
